@@ -174,7 +174,8 @@ structure State where
   -- ghost
   newSent : Bool := false
   efuel : Nat := 0
-  cancelled : Bool := false        -- the caller cancelled (context or API) after creating the request
+  apiCancelled : Bool := false     -- CancelRequest was called (after the request was created)
+  ctxWhileOpen : Bool := false     -- the caller context was cancelled before the error collector saw `inProgressErr` closed
   termSent : Bool := false         -- the request's own peer sent a terminal status (response hook ok)
   owed : Bool := false             -- a request message went out after the last own-peer terminal status
   lastTerm : Nat := 0
@@ -191,6 +192,9 @@ inductive Action where
   | envPause
   | envUnpause
   | envResp (peer status items : Nat) (hookErr : Bool)
+  -- environment obligations of the liveness clause (fair, not budgeted):
+  | oblUnpause                        -- the user resumes a request that is paused (and not cancelled)
+  | oblAnswer                         -- a responder that has sent a terminal status answers a re-issued request likewise
   -- manager
   | mgr
   -- worker / executor
@@ -228,13 +232,25 @@ inductive Action where
   | ceDeliverCC
 deriving DecidableEq, Repr
 
-/-- the internal actions: weak fairness is assumed for these (manager loop, worker, traverser, collectors,
-    a caller that keeps reading).  `xErrCtx` / `xFinCtx` are the alternative branch of a `select` whose
-    other branch is a fair action, not forced themselves. -/
-def Action.fair : Action → Bool
-  | .envNew | .envCtxCancel | .envCancelApi | .envPause | .envUnpause | .envResp .. => false
-  | .xErrCtx | .xFinCtx => false
-  | _ => true
+/-- process groups for weak fairness: manager loop, worker (executor), the two collectors (the deliver
+    actions = a caller that keeps reading; the rendezvous with the traverser / the senders are counted
+    with the receiving collector), and the two environment obligations.  `none` = environment input. -/
+inductive Group where | mgr | worker | cp | ce | oblUnpause | oblAnswer
+deriving DecidableEq, Repr
+
+def Action.group : Action → Option Group
+  | .envNew | .envCtxCancel | .envCancelApi | .envPause | .envUnpause | .envResp .. => none
+  | .oblUnpause => some .oblUnpause
+  | .oblAnswer => some .oblAnswer
+  | .mgr => some .mgr
+  | .wPop | .wGet | .xTop | .xConsume _ | .xWaitRemote .. | .xWaitLocal | .xRead .. | .xHook _
+  | .xErrCtx | .xAfterErr _ | .xSendReq | .xFin1 | .xFinCtx => some .worker
+  | .cpRecv | .cpDrainP | .cpDrainE | .cpSeeClose | .cpDeliver | .cpExit | .cpSeeCtx | .cpSendCancel
+  | .cpSeeCloseP | .cpSeeCloseE | .cpCancelExit => some .cp
+  | .ceRecv | .ceSeeClose | .ceDeliver | .ceExit | .ceSeeCtx | .ceDeliverCC => some .ce
+
+/-- the internal ("fair") actions: everything but the environment inputs. -/
+def Action.fair (a : Action) : Bool := a.group.isSome
 
 /-! ### manager handlers (server.go) -/
 
@@ -284,6 +300,8 @@ def modelTerminateStages : List String :=
 def handle (s : State) (m : Msg) : State :=
   match m with
   | .newReq =>
+    if s.reg != .none then s     -- (request ids are fresh: a second newRequest for this id cannot arrive)
+    else
     { s with reg := .live, rstate := .queued, tqPending := s.tqPending + 1,
              cp := .run 0 true, ce := .run [] true }
   | .cancel api =>
@@ -374,15 +392,29 @@ def step (s : State) : Action → Option State
       some { pushMsg s .newReq with newSent := true, efuel := s.efuel - 1 }
     else none
   | .envCtxCancel =>
-    (env s 1).map fun s => { s with callerCtx := true, cancelled := true }
+    (env s 1).map fun s =>
+      let open_ := match s.ce with
+        | .none => true
+        | .run _ io => io
+        | .sendCC .. => true
+        | .done => false
+      { s with callerCtx := true, ctxWhileOpen := s.ctxWhileOpen || open_ }
   | .envCancelApi =>
-    (env s 1).map fun s => { pushMsg s (.cancel true) with cancelled := true }
+    (env s 1).map fun s => { pushMsg s (.cancel true) with apiCancelled := true }
   | .envPause => (env s 1).map fun s => pushMsg s .pause
   | .envUnpause => (env s 1).map fun s => pushMsg s .unpause
   | .envResp p st items hk =>
     (env s (items + 1)).map fun s =>
       let s := pushMsg s (.responses p st items hk)
       if p == s.peer && !hk && isTerminal st then { s with termSent := true, owed := false, lastTerm := st } else s
+  | .oblUnpause =>
+    if s.reg == .live && s.rstate == .paused && !s.apiCancelled && !s.callerCtx && !s.mbox.contains .unpause then
+      some (pushMsg s .unpause)
+    else none
+  | .oblAnswer =>
+    if s.termSent && s.owed then
+      some { pushMsg s (.responses s.peer s.lastTerm 0 false) with owed := false }
+    else none
   | .mgr =>
     match s.mphase, s.mbox with
     | .idle, m :: rest => some (handle { s with mbox := rest } m)
@@ -440,7 +472,7 @@ def step (s : State) : Action → Option State
         else match o with
           | .rootErr => some (pauseCheck { s with t := .done (some Err.other) })
           | .cont v more =>
-            if v ≤ s.tfuel then some (pauseCheck { s with t := afterVisit v more, tfuel := s.tfuel - v })
+            if v + 1 ≤ s.tfuel then some (pauseCheck { s with t := afterVisit v more, tfuel := s.tfuel - (v + 1) })
             else none
       else none
     | _ => none
